@@ -31,6 +31,13 @@ def handleTT (ins outs : List J) : Verdict :=
       | .error .zeroVariance, [.atom "err", .atom "zerovar"] => .ok (tag ++ " err-zerovar")
       | .error .mismatched, [.atom "err", .atom "mismatch"] => .ok (tag ++ " err-mismatch")
       | .error e, _ => .fail "ttest-error-kind" s!"model expects error {repr e}, go returned {" ".intercalate (outs.map J.render)}"
+      | .ok _, [.atom "err", .atom "zerovar"] =>
+        -- the exact variance is positive but so small against the data that the float differences coincide
+        -- (relative spread below the quantifier's 1e-6, here below one ulp): outside the property's range
+        let d := if kind == "paired" then (x1.zip x2).map (fun (a, b) => a - b) else []
+        let cVar := if kind == "paired" then condOf d else ratMax (condOf x1) (condOf x2)
+        if cVar * eps > 1 / 1000 then .skip "ill-conditioned data (variance below rounding)"
+        else .fail "ttest-error-kind" "model expects a result, go returned err zerovar"
       | .ok st, [n1J, n2J, tJ, dofJ, pJ, cdfJ] =>
         (match n1J.nat?, n2J.nat?, tJ.flt?, dofJ.flt?, pJ.flt?, cdfJ.flt? with
          | some g1, some g2, some (.fin gt), some (.fin gdof), some (.fin gp), some (.fin gcdf) =>
